@@ -1,0 +1,72 @@
+//go:build verif
+
+package textwire
+
+import (
+	"sort"
+
+	"github.com/textwire/textwire/v2/config"
+)
+
+// VerifReset puts the package-level state back to what it is when the
+// process starts. Only built with -tags verif; used by the verification
+// harness to replay many histories in one process.
+func VerifReset() {
+	userConfig = config.New("templates", ".tw.html", "", false)
+	customFunc = config.NewFunc()
+	usesTemplates = false
+}
+
+// VerifState is a read-only copy of the package-level state.
+type VerifState struct {
+	TemplateDir   string
+	TemplateExt   string
+	ErrorPagePath string
+	DebugMode     bool
+	UsesTemplates bool
+	Funcs         []string
+}
+
+// VerifSnapshot returns a copy of the package-level state.
+func VerifSnapshot() VerifState {
+	s := VerifState{
+		TemplateDir:   userConfig.TemplateDir,
+		TemplateExt:   userConfig.TemplateExt,
+		ErrorPagePath: userConfig.ErrorPagePath,
+		DebugMode:     userConfig.DebugMode,
+		UsesTemplates: usesTemplates,
+	}
+
+	for k := range customFunc.Str {
+		s.Funcs = append(s.Funcs, "str:"+k)
+	}
+	for k := range customFunc.Arr {
+		s.Funcs = append(s.Funcs, "arr:"+k)
+	}
+	for k := range customFunc.Int {
+		s.Funcs = append(s.Funcs, "int:"+k)
+	}
+	for k := range customFunc.Float {
+		s.Funcs = append(s.Funcs, "float:"+k)
+	}
+	for k := range customFunc.Bool {
+		s.Funcs = append(s.Funcs, "bool:"+k)
+	}
+
+	sort.Strings(s.Funcs)
+
+	return s
+}
+
+// VerifProgramNames lists the names under which templates were registered.
+func (t *Template) VerifProgramNames() []string {
+	var names []string
+
+	for k := range t.programs {
+		names = append(names, k)
+	}
+
+	sort.Strings(names)
+
+	return names
+}
